@@ -12,7 +12,7 @@ PROPS = {  # subject keyword -> properties
  'peach stops feeding': ['C19'], 'only-values/only-bytes': ['C18'], 'wildcard modifiers': ['C23'],
  'several **': ['C23'], 'glob matching backtracks': ['C23'], 'daemon does not unlink': ['C27'],
  'getopt': ['C38'], 'LSP position': ['C44'], 'completion of a new word': ['C43'], 'variable-name completion': ['C43'],
- 'negative or huge file descriptor': ['C17','C42'], 'read-bytes': ['C17'], 'str:repeat': ['C17'], 'is on values of uncomparable': ['C17'],
+ 'negative or huge file descriptor': ['C17','C42'], 'read-bytes': ['C17'], 'randint': ['C17'], 'str:repeat': ['C17'], 'is on values of uncomparable': ['C17'],
  'run-parallel wraps': ['C17'], 'redirects its own stdin': ['C17'], 'port without a value channel': ['C17'],
  'Frame.Port': ['C17'], 'HasSubseq': ['C17'], 'styledown Render': ['C17'], 'duplicating a port onto itself': ['C42'],
  'TrimWcwidth': ['C33'], 'Segment.Concat': ['C33'], 'Text.Clone': ['C33'], 'StyleRegions': ['C33'], 'ParseSGREscapedText': ['C33'],
